@@ -6,7 +6,7 @@ import shutil
 import tempfile
 from typing import Any, Dict, List, Optional, Tuple
 
-from qv import bp, gen, snap, memo_shadow
+from qv import bp, gen, model as M, snap, memo_shadow
 from qv.acc import Acc
 from qv.props import common
 
@@ -253,6 +253,18 @@ def compile_real(circuit, name: str, acc: Acc, case) -> Optional[List[Tuple]]:
             pass
 
 
+def kinds_census(built, acc: Acc, case) -> None:
+    """The operations the exporter walks are the ones the build program added (kind by kind): an exporter can only be 'the image
+    of the circuit' if the circuit it is handed still is the build program (copies made while nesting keep every kind)."""
+    from collections import Counter
+    lib = Counter(type(o).__name__ for o in snap.walk_leaves(built.top.circuit.circuit_structure))
+    mod = Counter(n.kind for n, _, _ in M.leaf_records(built.top.mnodes, built.ctx.S, 0.0))
+    acc.count("kind_census_checks")
+    if lib != mod:
+        acc.finding("export/circuit-differs-from-build-program", "the circuit handed to the exporter does not hold the operation kinds the build program added", case,
+                    {"only_circuit": dict(lib - mod), "only_program": dict(mod - lib)})
+
+
 def check_program(prog: Dict[str, Any], acc: Acc, flags=None, compile_it: bool = False):
     from qce_circuit.addon_openql.factory_manager import to_openql
     flags = flags if flags is not None else {}
@@ -261,6 +273,7 @@ def check_program(prog: Dict[str, Any], acc: Acc, flags=None, compile_it: bool =
     with ctx.global_override():
         built = bp.build(prog, ctx)
         circuit = built.top.circuit
+        kinds_census(built, acc, case)
         want = expected_stream(circuit.circuit_structure, acc, flags)
         if flags.get("middle"):
             acc.count("subcircuit_in_the_middle")
